@@ -374,7 +374,7 @@ def shard(ctx: Ctx, sh: int, nshards: int, n: int) -> Stats:
             for sig, det in fails:
                 st.fail(sig, case, det)
 
-        drive(strategy(), one, ctx.shard_seed(sh, 41), n)
+        drive(strategy(), one, ctx.shard_seed(sh, 41), n, chunk=4000)
     return st
 
 
